@@ -8,7 +8,7 @@ pool object whether a probe change of `value` must call the handler exactly once
 """
 from hypothesis import strategies as st
 
-from traits.api import HasTraits, Int, Str, Instance, List, Dict, Set
+from traits.api import HasTraits, TraitError, Int, Str, Instance, List, Dict, Set
 from traits.observation.api import (trait, TraitChangeEvent, ListChangeEvent, DictChangeEvent, SetChangeEvent,
                                     push_exception_handler, pop_exception_handler)
 from traits.trait_base import Undefined, Uninitialized
@@ -228,7 +228,7 @@ OP = st.one_of(
     st.tuples(st.just("tl_set"), O, st.sampled_from("ab"), st.lists(P, max_size=2)),
     st.tuples(st.just("tl_same"), O, st.sampled_from("ab")), st.tuples(st.just("tl_same"), O, st.sampled_from("ab")),
     st.tuples(st.just("tl_append"), O, st.sampled_from("ab"), P), st.tuples(st.just("tl_pop"), O, st.sampled_from("ab")),
-    st.tuples(st.just("read_defaults"), O),
+    st.tuples(st.just("read_defaults"), O), st.tuples(st.just("quiet_refused"), O),
     # `del` of a link that holds a default OBJECT: the fresh default appears, the old one is gone; then the link is cleared
     st.tuples(st.just("del_default_link"), O),
     st.tuples(st.just("add_trait"), O, st.sampled_from(["extra", "extra_meta", "xchild", "xmchild", "xmchild"]), P),
@@ -438,6 +438,17 @@ def run(case, ctx):
                     ctx.fail("added-trait/%s" % ("missed" if exp else "notified"),
                              "%r: changing added trait %r.%s called the handler %d time(s), expected %d"
                              % (text, n, name, len(events), exp))
+                probe(op)
+                continue
+            if k == "quiet_refused":
+                # a quiet (trait_change_notify=False) assignment that is REFUSED: notifications are on again afterwards
+                try:
+                    n.trait_set(trait_change_notify=False, child="not acceptable")
+                    ctx.fail("setup/accepted", "trait_set(child='not acceptable') was accepted")
+                except TraitError:
+                    pass
+                interesting = True
+                ctx.label("quiet-assignment-refused")
                 probe(op)
                 continue
             # materialise the defaults the op reads, before computing reachability
